@@ -11,9 +11,9 @@ cd "$WT" || exit 2
 git diff > "$DST/patch.diff.actual"
 echo "== demo WITH change"; (bash "$OUT/run_demo.sh" "$WT" > "$DST/demo_with.log" 2>&1); RC_WITH=$?; tail -3 "$DST/demo_with.log"; echo "rc=$RC_WITH"
 echo "== suite WITH change"; (meson compile -C _build -j8 >/dev/null 2>&1; meson test -C _build 2>&1 | grep -E "^(Ok|Fail|Timeout):" ) | tee "$DST/suite_with.log"
-git stash -q
+git diff > /tmp/confirm-$ID.diff; git checkout -q -- .
 echo "== demo WITHOUT change"; (meson compile -C _build -j8 >/dev/null 2>&1; bash "$OUT/run_demo.sh" "$WT" > "$DST/demo_without.log" 2>&1); RC_WO=$?; tail -3 "$DST/demo_without.log"; echo "rc=$RC_WO"
-git stash pop -q
+git apply /tmp/confirm-$ID.diff; rm -f /tmp/confirm-$ID.diff
 cp "$OUT/patch.diff" "$DST/patch.diff"; cp -r "$OUT"/* "$DST/" 2>/dev/null
 cd /verif
 echo "== our checks"; tools/try_mutation.sh "$DST/patch.diff" "$@" | tee "$DST/checks.log"
